@@ -58,6 +58,25 @@ theorem styled_triangle_same_scanlines (t : Tri) (style : TriStyle) (hb : TriPix
   tri_same_scanlines t style hb calls px hd hpx
 example : TriPixelBudgetOK ⟨⟨-3, 1⟩, ⟨6, -2⟩, ⟨2, 7⟩⟩ ⟨some 9, some 5, 3, .center⟩ := by decide +kernel
 
+/-- Whatever the model's pixel budget: `pixels()` of the model is the first `budget` pixels of the
+coloured scanlines `draw()` turns into rectangles, walked in the same order — the only way
+`TriPixelBudgetOK` can fail is truncation of the model's list (no guard). -/
+theorem styled_triangle_pixels_prefix (t : Tri) (style : TriStyle) (bb : Rect)
+    (hbb : triStyledBoundingBox t style = some bb) :
+    ∃ L : List (Scanline × PointType),
+      triDraw t style = some (if style.isTransparent then [] else L.filterMap (triCall style)) ∧
+      triPixels t style = some ((L.flatMap (typedPixels style.fillColor style.effectiveStrokeColor)).take
+        (3 * (bb.size.w + 2 * style.strokeWidth + 4) * (bb.size.h + 1) + 2)) := by
+  obtain ⟨L, hL, hpx⟩ := triPixels_prefix_run t style bb hbb
+  refine ⟨L, ?_, hpx⟩
+  rw [triDraw_eq]
+  unfold triScanlineRun at hL
+  by_cases htr : style.isTransparent = true
+  · simp only [htr, ↓reduceIte]
+  · simp only [htr, Bool.false_eq_true, ↓reduceIte, hL, Option.map_some]
+example : ∃ bb, triStyledBoundingBox ⟨⟨-3, 1⟩, ⟨6, -2⟩, ⟨2, 7⟩⟩ ⟨some 9, some 5, 3, .center⟩ = some bb :=
+  triStyledBoundingBox_total _ _
+
 /-- **Write sequences.** For every triangle, style and target box: the writes of `draw()` — natively
 (R2) and through the trait defaults (R1) — are exactly the pixels of `pixels()` clipped to the box:
 same points, same colours, same order (so a stroke pixel written over a fill pixel is written over
